@@ -302,4 +302,31 @@ theorem SelectorErrorCode_descriptor_table (f : BitVec 64) :
       .ok (bif ((f >>> 1) &&& 3#64) == 0#64 then 0#8 else bif ((f >>> 1) &&& 3#64) == 2#64 then 2#8 else 1#8) := by
   tie_codec
 
+/-! ### `ExceptionVector::try_from(u8)`, `PatMemoryType` - all 256 inputs, decided by the kernel -/
+
+def ev8 (v : ExceptionVector) : BitVec 8 := BitVec.ofNat 8 v.toU8
+def pat8 (p : PatMemoryType) : BitVec 8 := BitVec.ofNat 8 p.bits
+
+def resOfOpt {α : Type} : Option α → Except Unit α
+  | some a => .ok a
+  | none => .error ()
+
+instance : DecidableEq (Except Unit (BitVec 8)) := fun a b =>
+  match a, b with
+  | .ok x, .ok y => if h : x = y then isTrue (h ▸ rfl) else isFalse (by intro e; cases e; exact h rfl)
+  | .error _, .error _ => isTrue rfl
+  | .ok _, .error _ => isFalse (by intro e; cases e)
+  | .error _, .ok _ => isFalse (by intro e; cases e)
+
+theorem ExceptionVector_try_from (n : BitVec 8) :
+    Src.ExceptionVector_try_from_u8 cfg n = .ok (resOfOpt ((ExceptionVector.tryFrom n.toNat).map ev8)) := by
+  cases cfg with
+  | mk ovf => cases ovf <;> revert n <;> decide +kernel
+
+theorem PatMemoryType_from_bits (n : BitVec 8) :
+    Src.PatMemoryType_from_bits cfg n = .ok ((PatMemoryType.fromBits n.toNat).map pat8) := by
+  cases cfg with
+  | mk ovf => cases ovf <;> revert n <;> decide +kernel
+
+theorem PatMemoryType_bits (p : PatMemoryType) : Src.PatMemoryType_bits cfg (pat8 p) = .ok (pat8 p) := rfl
 end X86.SrcTie
